@@ -65,7 +65,7 @@ let c12_normalize body =
   match parse_many body with
   | [cwd; root; gd; ga] ->
       let ga = strs_of ga in
-      (match resolve_command_base_dir (str_of cwd) ga with
+      (match resolve_command_base_dir (Some (str_of cwd)) ga with
        | None -> "err"
        | Some base -> show (L [Sym "ok"; show_strs (global_args_for_exec (normalize_global_args ga (str_of root) base (str_of gd)))]))
   | _ -> failwith "c12-normalize: bad case"
